@@ -1,0 +1,8 @@
+//go:build verif
+
+package verifexport
+
+import "github.com/cloudwego/hertz/internal/tagexpr"
+
+// TagexprShape renders the parsed-and-sorted expression tree fully parenthesised.
+func TagexprShape(expr string) (string, error) { return tagexpr.VerifShape(expr) }
